@@ -218,6 +218,22 @@ class HeapExec(Exec):
                 return base.get(args[0])
             if meth == "keys":
                 return [S(f"key{next(_cnt)}")]
+            if meth == "values":
+                return [base.child(S(f"key{next(_cnt)}"))]
+            if meth == "pop":                 # removes the key when present: a write to the object (logged with its origins)
+                v = base.get(args[0])
+                base.delete(args[0], node)
+                return v
+            if meth == "popitem" or meth == "clear":
+                base.delete("*", node)
+                return None if meth == "clear" else (S(f"key{next(_cnt)}"), base.child("*"))
+            if meth == "setdefault":          # may insert: a write
+                v = base.get(args[0])
+                base.set(args[0], v if (args[0] if isinstance(args[0], str) else str(args[0])) in base.known else (args[1] if len(args) > 1 else None), node)
+                return base.get(args[0])
+            if meth == "update":
+                base.set("*", args[0] if args else None, node)
+                return None
             raise SymExError(f"method .{meth} on an abstract dictionary")
         return super().call_bound(meth, base, args, kwargs, node)
 
